@@ -110,9 +110,17 @@ Definition pr_new (x : raw) : pres :=
 Definition raw_is_null (x : raw) : bool :=
   match x with
   | RVal TNone => true
+  | RVal (TList []) => true                      (* an empty ParseResults.List == [] *)
   | RList [] => true
   | _ => false
   end.
+
+(* write-through of `self[name]._name = name` when the named value is the very object that also sits in the token
+   list (`ParseResults(toklist[0])` returns toklist[0] itself when it is a ParseResults: Group -> r['g'] is r[0]) *)
+Definition rename_tok (n : str) (t : tok) : tok :=
+  match t with TPR v => TPR (set_rname v (Some n)) | other => other end.
+Definition rename_head (n : str) (l : list tok) : list tok :=
+  match l with t :: rest => rename_tok n t :: rest | [] => [] end.
 
 (* `__init__(self, toklist, name, asList, modal)` running on self = pr_new toklist *)
 Definition pr_init (x : raw) (name : option str) (asList modal_ : bool) : pres :=
@@ -129,13 +137,24 @@ Definition pr_init (x : raw) (name : option str) (asList modal_ : bool) : pres :
         let inner := match x with
                      | RPR r => pr_of_list (toks r)                      (* ParseResults(toklist._toklist) *)
                      | RStr s => pr_of_list [TStr s]                     (* toklist = [toklist]; ParseResults(toklist[0]) *)
-                     | RVal v => pr_of_value v                           (* not reachable from the parser *)
+                     | RVal (TList l) => match l with v :: _ => pr_of_value v | [] => pr_empty end   (* a ParseResults.List: toklist[0] *)
+                     | RVal v => pr_of_value v                           (* Python raises TypeError here (scalar[0]); not reachable from the parser; see pr_init_raises in ResultsAPI.v *)
                      | RList l => match l with v :: _ => pr_of_value v | [] => pr_empty end
                      end in
-        set_last_value_name (pr_setname self2 n (TPR inner) 0) n
+        let self3 := set_last_value_name (pr_setname self2 n (TPR inner) 0) n in
+        (* for a modal name the `_name` write lands on toklist[0] itself when that is a ParseResults *)
+        if name_in n (allnames self2) then self3
+        else match x with
+             | RList _ => PR (rename_head n (toks self3)) (dict self3) (allnames self3) (rname self3) (modal self3)
+             | RVal (TList _) =>
+               PR (match toks self3 with TList l :: rest => TList (rename_head n l) :: rest | other => other end)
+                  (dict self3) (allnames self3) (rname self3) (modal self3)
+             | _ => self3
+             end
       else
         match x with
         | RStr s => pr_setname self2 n (TStr s) 0
+        | RVal (TList l) => match l with v :: _ => pr_setname self2 n v 0 | [] => self2 end   (* a ParseResults.List: toklist[0] *)
         | RVal v => pr_setname self2 n v 0                               (* TypeError path: self[name] = toklist *)
         | RList l => match l with v :: _ => pr_setname self2 n v 0 | [] => self2 end
         | RPR r => match toks r with
